@@ -1,5 +1,484 @@
+(** Proofs about KeyMat.v (C14). *)
 From Coq Require Import ZArith List Bool Lia.
-From KV Require Import Base KeyMat.
+From KV Require Import Base Cases KeyMat.
 Import ListNotations.
 Open Scope Z_scope.
-Lemma stub_true : True. Proof. exact I. Qed.
+
+(** * Small tools *)
+
+Lemma bind_not_panic : forall {A B} (r : res A) (f : A -> res B),
+  r <> Panic -> (forall a, r = Ok a -> f a <> Panic) -> bind r f <> Panic.
+Proof.
+  intros A B r f Hr Hf. destruct r as [a| | |]; cbn; try discriminate.
+  - apply Hf; reflexivity.
+  - congruence.
+Qed.
+
+Lemma bind_ok : forall {A B} (r : res A) (f : A -> res B) b,
+  bind r f = Ok b -> exists a, r = Ok a /\ f a = Ok b.
+Proof. intros A B r f b H. destruct r as [a| | |]; cbn in H; try discriminate. eauto. Qed.
+
+Lemma rmap_not_panic : forall {A B} (f : A -> B) (r : res A), r <> Panic -> rmap f r <> Panic.
+Proof. intros A B f r H. unfold rmap. apply bind_not_panic; [exact H | intros; discriminate]. Qed.
+
+Lemma slot_eqb_refl : forall s, slot_eqb s s = true.
+Proof. destruct s; reflexivity. Qed.
+
+Lemma slot_eqb_eq : forall a b, slot_eqb a b = true -> a = b.
+Proof. destruct a, b; cbn; intros H; try discriminate; reflexivity. Qed.
+
+Lemma bitlen_nonneg : forall n, 0 <= bitlen n.
+Proof.
+  intros n. unfold bitlen. destruct (n =? 0); [lia|].
+  pose proof (Z.log2_nonneg (Z.abs n)). lia.
+Qed.
+
+(** * The KeyFormat selectors only ever return one of the values the builders handle *)
+
+Lemma rsa_priv_format_cases : forall kf,
+  rsa_priv_format kf = KF_PKCS1 \/ rsa_priv_format kf = KF_PKCS8 \/ rsa_priv_format kf = KF_Transparent.
+Proof. intros kf. unfold rsa_priv_format. repeat match goal with |- context[if ?b then _ else _] => destruct b end; auto. Qed.
+
+Lemma rsa_pub_format_cases : forall kf,
+  rsa_pub_format kf = KF_PKCS1 \/ rsa_pub_format kf = KF_X509 \/ rsa_pub_format kf = KF_Transparent.
+Proof. intros kf. unfold rsa_pub_format. repeat match goal with |- context[if ?b then _ else _] => destruct b end; auto. Qed.
+
+Lemma ecdsa_priv_format_cases : forall kf,
+  ecdsa_priv_format kf = KF_SEC1 \/ ecdsa_priv_format kf = KF_PKCS8 \/ ecdsa_priv_format kf = KF_Transparent.
+Proof. intros kf. unfold ecdsa_priv_format. repeat match goal with |- context[if ?b then _ else _] => destruct b end; auto. Qed.
+
+Lemma ecdsa_pub_format_cases : forall kf,
+  ecdsa_pub_format kf = KF_X509 \/ ecdsa_pub_format kf = KF_Transparent.
+Proof. intros kf. unfold ecdsa_pub_format. repeat match goal with |- context[if ?b then _ else _] => destruct b end; auto. Qed.
+
+Lemma symmetric_format_cases : forall kf,
+  symmetric_format kf = KF_RAW \/ symmetric_format kf = KF_Transparent.
+Proof. intros kf. unfold symmetric_format. repeat match goal with |- context[if ?b then _ else _] => destruct b end; auto. Qed.
+
+(** * Accessor totality: no accessor panics, on any object *)
+
+Lemma get_material_not_panic : forall kb, get_material kb <> Panic.
+Proof. intros kb. unfold get_material. destruct (kb_value kb) as [kv|]; [destruct (kv_plain kv)|]; discriminate. Qed.
+
+Lemma get_bytes_not_panic : forall kb, get_bytes kb <> Panic.
+Proof.
+  intros kb. unfold get_bytes. apply bind_not_panic; [apply get_material_not_panic|].
+  intros m _. destruct (km_bytes m); discriminate.
+Qed.
+
+Lemma get_attributes_not_panic : forall kb, get_attributes kb <> Panic.
+Proof. intros kb. unfold get_attributes. destruct (kb_value kb) as [kv|]; [destruct (kv_plain kv)|]; discriminate. Qed.
+
+Lemma run_kb_acc_total : forall a kb, run_kb_acc a kb <> Panic.
+Proof.
+  intros a kb. destruct a; cbn [run_kb_acc]; apply rmap_not_panic.
+  - apply get_material_not_panic.
+  - apply get_bytes_not_panic.
+  - apply get_attributes_not_panic.
+Qed.
+
+Lemma secret_data_not_panic : forall kb, secret_data kb <> Panic.
+Proof. intros kb. unfold secret_data. destruct (_ || _); [apply get_bytes_not_panic | discriminate]. Qed.
+
+Lemma symmetric_key_material_not_panic : forall kb, symmetric_key_material kb <> Panic.
+Proof.
+  intros kb. unfold symmetric_key_material.
+  destruct (kb_format kb =? KFT_Raw); [apply get_bytes_not_panic|].
+  destruct (kb_format kb =? KFT_TSymmetricKey); [|discriminate].
+  apply bind_not_panic; [apply get_material_not_panic|]. intros m _. destruct (km_sym m); discriminate.
+Qed.
+
+Section Totality.
+Variable C : crypto.
+
+Lemma cert_x509_not_panic : forall ct v, cert_x509 C ct v <> Panic.
+Proof. intros ct v. unfold cert_x509. destruct (negb _); [discriminate|]. destruct (parse_cert C v); discriminate. Qed.
+
+Lemma cert_pem_not_panic : forall ct v, cert_pem C ct v <> Panic.
+Proof.
+  intros ct v. unfold cert_pem. apply bind_not_panic; [apply cert_x509_not_panic | intros; discriminate].
+Qed.
+
+Lemma pub_rsa_not_panic : forall kb, pub_rsa C kb <> Panic.
+Proof.
+  intros kb. unfold pub_rsa.
+  destruct (kb_format kb =? KFT_PKCS1).
+  { apply bind_not_panic; [apply get_bytes_not_panic|]. intros raw _. destruct (parse_pkcs1_pub C raw); discriminate. }
+  destruct (kb_format kb =? KFT_X509).
+  { apply bind_not_panic; [apply get_bytes_not_panic|]. intros raw _.
+    destruct (parse_pkix C raw) as [[k|k|]|]; discriminate. }
+  destruct (kb_format kb =? KFT_TRSAPublicKey); [|discriminate].
+  apply bind_not_panic; [apply get_material_not_panic|]. intros m _.
+  destruct (km_rsa_pub m) as [[n e]|]; [destruct (in_i64 e)|]; discriminate.
+Qed.
+
+Lemma pub_ecdsa_transparent_not_panic : forall kb t, pub_ecdsa_transparent C kb t <> Panic.
+Proof.
+  intros kb t. unfold pub_ecdsa_transparent. destruct t as [[crv q]|]; [|discriminate].
+  destruct (curve_of_kmip crv) as [c|]; [|discriminate].
+  destruct (_ =? KCT_Uncompressed).
+  { destruct (ec_unmarshal C c q) as [[x y]|]; discriminate. }
+  destruct (_ =? KCT_CompressedPrime); [|discriminate].
+  destruct (ec_unmarshal_compressed C c q) as [[x y]|]; discriminate.
+Qed.
+
+Lemma pub_ecdsa_not_panic : forall kb, pub_ecdsa C kb <> Panic.
+Proof.
+  intros kb. unfold pub_ecdsa.
+  destruct (kb_format kb =? KFT_X509).
+  { apply bind_not_panic; [apply get_bytes_not_panic|]. intros raw _.
+    destruct (parse_pkix C raw) as [[k|k|]|]; discriminate. }
+  destruct (_ || _); [|discriminate].
+  apply bind_not_panic; [apply get_material_not_panic|]. intros m _. apply pub_ecdsa_transparent_not_panic.
+Qed.
+
+Lemma pub_crypto_not_panic : forall kb, pub_crypto C kb <> Panic.
+Proof.
+  intros kb. unfold pub_crypto.
+  destruct (_ || _). { apply bind_not_panic; [apply pub_ecdsa_not_panic | intros; discriminate]. }
+  destruct (_ || _). { apply bind_not_panic; [apply pub_rsa_not_panic | intros; discriminate]. }
+  destruct (kb_format kb =? KFT_X509); [|discriminate].
+  apply bind_not_panic; [apply get_bytes_not_panic|]. intros raw _. destruct (parse_pkix C raw); discriminate.
+Qed.
+
+Lemma pub_pem_not_panic : forall kb, pub_pem C kb <> Panic.
+Proof.
+  intros kb. unfold pub_pem. apply bind_not_panic; [apply pub_crypto_not_panic|].
+  intros k _. destruct (marshal_pkix C k); discriminate.
+Qed.
+
+Lemma priv_rsa_not_panic : forall kb, priv_rsa C kb <> Panic.
+Proof.
+  intros kb. unfold priv_rsa.
+  destruct (kb_format kb =? KFT_PKCS1).
+  { apply bind_not_panic; [apply get_bytes_not_panic|]. intros raw _. destruct (parse_pkcs1_priv C raw); discriminate. }
+  destruct (kb_format kb =? KFT_PKCS8).
+  { apply bind_not_panic; [apply get_bytes_not_panic|]. intros raw _.
+    destruct (parse_pkcs8 C raw) as [[k|k|]|]; discriminate. }
+  destruct (kb_format kb =? KFT_TRSAPrivateKey); [|discriminate].
+  apply bind_not_panic; [apply get_material_not_panic|]. intros m _.
+  destruct (km_rsa_priv m) as [t|]; [|discriminate].
+  destruct (tr_e t) as [e|]; [|discriminate]. destruct (tr_d t) as [d|]; [|discriminate].
+  destruct (negb (in_i64 e)); discriminate.
+Qed.
+
+Lemma priv_ecdsa_not_panic : forall kb, priv_ecdsa C kb <> Panic.
+Proof.
+  intros kb. unfold priv_ecdsa.
+  destruct (kb_format kb =? KFT_ECPrivateKey).
+  { apply bind_not_panic; [apply get_bytes_not_panic|]. intros raw _. destruct (parse_sec1 C raw); discriminate. }
+  destruct (kb_format kb =? KFT_PKCS8).
+  { apply bind_not_panic; [apply get_bytes_not_panic|]. intros raw _.
+    destruct (parse_pkcs8 C raw) as [[k|k|]|]; discriminate. }
+  destruct (_ || _); [|discriminate].
+  apply bind_not_panic; [apply get_material_not_panic|]. intros m _.
+  destruct (if kb_format kb =? KFT_TECPrivateKey then km_ec_priv m else km_ecdsa_priv m) as [[crv d]|]; [|discriminate].
+  destruct (curve_of_kmip crv) as [c|]; [|discriminate].
+  destruct (_ || _); [discriminate|]. destruct (scalar_base_mult C c (Z.abs d)); discriminate.
+Qed.
+
+(** What the library needs from x509.MarshalPKCS8PrivateKey / the parsers for the PEM
+    accessor not to panic: the marshaller is total on RSA keys, on keys of other algorithms,
+    and on EC keys whose scalar is in [1, N-1]; the parsers only return such EC keys. *)
+Record crypto_safe : Prop := {
+  safe_pkcs8_rsa : forall k, marshal_pkcs8 C (PrivRsa k) <> Panic;
+  safe_pkcs8_other : marshal_pkcs8 C PrivOther <> Panic;
+  safe_pkcs8_ec : forall k, 0 < ek_d k < curve_order C (ek_curve k) -> marshal_pkcs8 C (PrivEc k) <> Panic;
+  safe_parse_pkcs8 : forall b k, parse_pkcs8 C b = Some (PrivEc k) -> 0 < ek_d k < curve_order C (ek_curve k);
+  safe_parse_sec1 : forall b k, parse_sec1 C b = Some k -> 0 < ek_d k < curve_order C (ek_curve k)
+}.
+
+Definition scalar_in_range (k : ec_priv) : Prop := 0 < ek_d k < curve_order C (ek_curve k).
+
+Lemma priv_ecdsa_in_range : crypto_safe -> forall kb k, priv_ecdsa C kb = Ok k -> scalar_in_range k.
+Proof.
+  intros S kb k. unfold priv_ecdsa.
+  destruct (kb_format kb =? KFT_ECPrivateKey).
+  { intros H. apply bind_ok in H. destruct H as [raw [_ H]].
+    destruct (parse_sec1 C raw) as [k'|] eqn:E; [|discriminate]. injection H as <-. eapply safe_parse_sec1; eauto. }
+  destruct (kb_format kb =? KFT_PKCS8).
+  { intros H. apply bind_ok in H. destruct H as [raw [_ H]].
+    destruct (parse_pkcs8 C raw) as [[k'|k'|]|] eqn:E; try discriminate. injection H as <-. eapply safe_parse_pkcs8; eauto. }
+  destruct (_ || _); [|discriminate].
+  intros H. apply bind_ok in H. destruct H as [m [_ H]].
+  destruct (if kb_format kb =? KFT_TECPrivateKey then km_ec_priv m else km_ecdsa_priv m) as [[crv d]|]; [|discriminate].
+  destruct (curve_of_kmip crv) as [c|]; [|discriminate].
+  destruct ((d <=? 0) || (curve_order C c <=? d)) eqn:G; [discriminate|].
+  destruct (scalar_base_mult C c (Z.abs d)) as [x y]. injection H as <-.
+  apply orb_false_iff in G. destruct G as [G1 G2]. unfold scalar_in_range; cbn. lia.
+Qed.
+
+Lemma priv_crypto_not_panic : forall kb, priv_crypto C kb <> Panic.
+Proof.
+  intros kb. unfold priv_crypto.
+  destruct (_ || _). { apply bind_not_panic; [apply priv_ecdsa_not_panic | intros; discriminate]. }
+  destruct (_ || _). { apply bind_not_panic; [apply priv_rsa_not_panic | intros; discriminate]. }
+  destruct (kb_format kb =? KFT_PKCS8); [|discriminate].
+  apply bind_not_panic; [apply get_bytes_not_panic|]. intros raw _. destruct (parse_pkcs8 C raw); discriminate.
+Qed.
+
+Lemma priv_crypto_in_range : crypto_safe -> forall kb k, priv_crypto C kb = Ok (PrivEc k) -> scalar_in_range k.
+Proof.
+  intros S kb k. unfold priv_crypto.
+  destruct (_ || _).
+  { intros H. apply bind_ok in H. destruct H as [k' [H1 H2]]. injection H2 as <-. eapply priv_ecdsa_in_range; eauto. }
+  destruct (_ || _).
+  { intros H. apply bind_ok in H. destruct H as [k' [_ H2]]. discriminate. }
+  destruct (kb_format kb =? KFT_PKCS8); [|discriminate].
+  intros H. apply bind_ok in H. destruct H as [raw [_ H]].
+  destruct (parse_pkcs8 C raw) as [k'|] eqn:E; [|discriminate]. injection H as ->. eapply safe_parse_pkcs8; eauto.
+Qed.
+
+Lemma priv_pem_not_panic : crypto_safe -> forall kb, priv_pem C kb <> Panic.
+Proof.
+  intros S kb. unfold priv_pem. apply bind_not_panic; [apply priv_crypto_not_panic|].
+  intros k Hk. apply bind_not_panic; [|intros; discriminate].
+  destruct k as [r|e|].
+  - apply safe_pkcs8_rsa; exact S.
+  - apply safe_pkcs8_ec; [exact S|]. eapply priv_crypto_in_range; eauto.
+  - apply safe_pkcs8_other; exact S.
+Qed.
+
+Theorem run_obj_acc_total : crypto_safe -> forall a o, run_obj_acc C a o <> Panic.
+Proof.
+  intros S a o.
+  destruct a, o; cbn [run_obj_acc]; try discriminate; apply rmap_not_panic;
+    first [ apply secret_data_not_panic | apply symmetric_key_material_not_panic
+          | apply cert_x509_not_panic | apply cert_pem_not_panic
+          | apply pub_rsa_not_panic | apply pub_ecdsa_not_panic | apply pub_crypto_not_panic | apply pub_pem_not_panic
+          | apply priv_rsa_not_panic | apply priv_ecdsa_not_panic | apply priv_crypto_not_panic
+          | apply priv_pem_not_panic; exact S ].
+Qed.
+
+Ltac pl_np lem :=
+  let g := fresh "g" in
+  intros g; match goal with |- ?f _ _ <> Panic => unfold f end;
+  destruct (negb _); [discriminate|];
+  destruct (gr_obj g) as [[]|]; try discriminate; apply lem.
+
+Lemma pl_secret_not_panic : forall g, pl_secret g <> Panic.
+Proof.
+  intros g. unfold pl_secret. destruct (negb _); [discriminate|].
+  destruct (gr_obj g) as [[]|]; try discriminate. apply secret_data_not_panic.
+Qed.
+Lemma pl_symmetric_key_not_panic : forall g, pl_symmetric_key g <> Panic.
+Proof.
+  intros g. unfold pl_symmetric_key. destruct (negb _); [discriminate|].
+  destruct (gr_obj g) as [[]|]; try discriminate. apply symmetric_key_material_not_panic.
+Qed.
+Lemma pl_x509_certificate_not_panic : forall g, pl_x509_certificate C g <> Panic.
+Proof. pl_np cert_x509_not_panic. Qed.
+Lemma pl_pem_certificate_not_panic : forall g, pl_pem_certificate C g <> Panic.
+Proof. pl_np cert_pem_not_panic. Qed.
+Lemma pl_rsa_private_key_not_panic : forall g, pl_rsa_private_key C g <> Panic.
+Proof. pl_np priv_rsa_not_panic. Qed.
+Lemma pl_ecdsa_private_key_not_panic : forall g, pl_ecdsa_private_key C g <> Panic.
+Proof. pl_np priv_ecdsa_not_panic. Qed.
+Lemma pl_private_key_not_panic : forall g, pl_private_key C g <> Panic.
+Proof. pl_np priv_crypto_not_panic. Qed.
+Lemma pl_pem_private_key_not_panic : crypto_safe -> forall g, pl_pem_private_key C g <> Panic.
+Proof. intros S. pl_np priv_pem_not_panic. exact S. Qed.
+Lemma pl_rsa_public_key_not_panic : forall g, pl_rsa_public_key C g <> Panic.
+Proof. pl_np pub_rsa_not_panic. Qed.
+Lemma pl_ecdsa_public_key_not_panic : forall g, pl_ecdsa_public_key C g <> Panic.
+Proof. pl_np pub_ecdsa_not_panic. Qed.
+Lemma pl_public_key_not_panic : forall g, pl_public_key C g <> Panic.
+Proof. pl_np pub_crypto_not_panic. Qed.
+Lemma pl_pem_public_key_not_panic : forall g, pl_pem_public_key C g <> Panic.
+Proof. pl_np pub_pem_not_panic. Qed.
+
+Theorem run_pl_acc_total : crypto_safe -> forall a g, run_pl_acc C a g <> Panic.
+Proof.
+  intros S a g. destruct a; cbn [run_pl_acc]; apply rmap_not_panic;
+    first [ apply pl_secret_not_panic | apply pl_symmetric_key_not_panic
+          | apply pl_x509_certificate_not_panic | apply pl_pem_certificate_not_panic
+          | apply pl_rsa_private_key_not_panic | apply pl_ecdsa_private_key_not_panic
+          | apply pl_private_key_not_panic | apply pl_pem_private_key_not_panic; exact S
+          | apply pl_rsa_public_key_not_panic | apply pl_ecdsa_public_key_not_panic
+          | apply pl_public_key_not_panic | apply pl_pem_public_key_not_panic ].
+Qed.
+
+End Totality.
+
+(** * Slot agreement: the builders' KeyFormatType designates the slot they populate *)
+
+(** What every successfully built request looks like: a key block with a plain key value whose
+    material has exactly one slot [s] populated, [s] being both the slot KeyMaterial.decode
+    stores into for the block's KeyFormatType and the slot the typed accessor reads. *)
+Definition built_shape (i : reg_input) (r : reg_req) : Prop :=
+  exists kb m s,
+    object_key_block (rq_obj r) = Some kb /\
+    kb_value kb = Some (mk_kv None (Some (mk_pkv m []))) /\
+    populated_slots m = [s] /\
+    decode_slot (kb_format kb) = Some s /\
+    accessor_slot (input_accessor i) (kb_format kb) = Some s.
+
+Ltac crunch H :=
+  repeat match type of H with
+  | context[if ?b then _ else _] => destruct b eqn:?
+  | context[bind ?r _] => destruct r eqn:?; cbn [bind] in H
+  | context[match ?x with _ => _ end] => destruct x eqn:?
+  end; try discriminate H.
+
+Ltac shape_done := do 3 eexists; repeat split; reflexivity.
+
+Theorem slot_agreement : forall C kf ver usage i r,
+  build C kf ver usage i = Ok r -> built_shape i r.
+Proof.
+  intros C kf ver usage i r H. destruct i as [k|k|k|k|alg v|kind v]; cbn [build] in H.
+  - unfold reg_rsa_priv in H. crunch H; injection H as <-; shape_done.
+  - unfold reg_rsa_pub in H. crunch H; injection H as <-; shape_done.
+  - unfold reg_ec_priv in H. crunch H; injection H as <-; shape_done.
+  - unfold reg_ec_pub in H. crunch H; injection H as <-; shape_done.
+  - unfold reg_symmetric in H. crunch H; injection H as <-; shape_done.
+  - unfold reg_secret in H. injection H as <-; shape_done.
+Qed.
+
+Lemma built_shape_wire_stable : forall i r, built_shape i r -> wire_stable (rq_obj r) = true.
+Proof.
+  intros i r [kb [m [s [Hkb [Hv [Hp [Hd _]]]]]]].
+  unfold wire_stable. rewrite Hkb. unfold wire_stable_kb. rewrite Hv. cbn. rewrite Hp, Hd. apply slot_eqb_refl.
+Qed.
+
+Corollary built_wire_stable : forall C kf ver usage i r,
+  build C kf ver usage i = Ok r -> wire_stable (rq_obj r) = true.
+Proof. intros. eapply built_shape_wire_stable, slot_agreement; eauto. Qed.
+
+(** The accessor table is about the accessor functions: when the slot an accessor reads for
+    the block's KeyFormatType is empty, or the format is not one it handles, it answers with an
+    error (never with a value taken from some other slot). *)
+Definition slot_missing (a : obj_acc) (kb : key_block) (m : key_material) : Prop :=
+  match accessor_slot a (kb_format kb) with
+  | Some s => slot_filled m s = false
+  | None => True
+  end.
+
+Section NeedsSlot.
+Variable C : crypto.
+Variable kb : key_block.
+Variable m : key_material.
+Hypothesis Hm : get_material kb = Ok m.
+
+Lemma get_bytes_missing : slot_filled m SBytes = false -> get_bytes kb = Err.
+Proof.
+  intros E. unfold get_bytes. rewrite Hm. cbn. cbn in E. destruct (km_bytes m); [discriminate|reflexivity].
+Qed.
+
+Ltac fmt_is E := apply Z.eqb_eq in E; unfold slot_missing in *; rewrite E in *.
+
+Lemma secret_data_needs_slot : slot_missing ASecretData kb m -> secret_data kb = Err.
+Proof.
+  unfold slot_missing, accessor_slot, secret_data. intros Hs.
+  destruct (_ || _); [|reflexivity]. apply get_bytes_missing. exact Hs.
+Qed.
+
+Lemma symmetric_needs_slot : slot_missing ASymKeyMaterial kb m -> symmetric_key_material kb = Err.
+Proof.
+  unfold slot_missing, accessor_slot, symmetric_key_material. intros Hs.
+  destruct (kb_format kb =? KFT_Raw). { apply get_bytes_missing. exact Hs. }
+  destruct (kb_format kb =? KFT_TSymmetricKey); [|reflexivity].
+  rewrite Hm. cbn. cbn in Hs. destruct (km_sym m); [discriminate|reflexivity].
+Qed.
+
+Lemma pub_rsa_needs_slot : slot_missing APubRSA kb m -> pub_rsa C kb = Err.
+Proof.
+  unfold slot_missing, accessor_slot, pub_rsa. intros Hs.
+  destruct (kb_format kb =? KFT_PKCS1). { cbn in Hs. rewrite get_bytes_missing; [reflexivity|exact Hs]. }
+  destruct (kb_format kb =? KFT_X509). { cbn in Hs. rewrite get_bytes_missing; [reflexivity|exact Hs]. }
+  destruct (kb_format kb =? KFT_TRSAPublicKey); [|reflexivity].
+  rewrite Hm. cbn. cbn in Hs. destruct (km_rsa_pub m); [discriminate|reflexivity].
+Qed.
+
+Lemma pub_ecdsa_needs_slot : slot_missing APubECDSA kb m -> pub_ecdsa C kb = Err.
+Proof.
+  unfold slot_missing, accessor_slot, pub_ecdsa. intros Hs.
+  destruct (kb_format kb =? KFT_X509). { rewrite get_bytes_missing; [reflexivity|exact Hs]. }
+  destruct (kb_format kb =? KFT_TECDSAPublicKey) eqn:E1.
+  { cbn [orb]. rewrite Hm. cbn [bind].
+    destruct (kb_format kb =? KFT_TECPublicKey) eqn:E2.
+    { apply Z.eqb_eq in E1, E2. rewrite E1 in E2. discriminate. }
+    cbn in Hs. unfold pub_ecdsa_transparent. destruct (km_ecdsa_pub m); [discriminate|reflexivity]. }
+  cbn [orb]. destruct (kb_format kb =? KFT_TECPublicKey); [|reflexivity].
+  rewrite Hm. cbn [bind]. cbn in Hs. unfold pub_ecdsa_transparent. destruct (km_ec_pub m); [discriminate|reflexivity].
+Qed.
+
+Lemma pub_crypto_needs_slot : slot_missing APubCrypto kb m -> pub_crypto C kb = Err.
+Proof.
+  intros Hs. unfold pub_crypto.
+  destruct (kb_format kb =? KFT_TECPublicKey) eqn:E1.
+  { cbn [orb]. rewrite pub_ecdsa_needs_slot; [reflexivity|]. fmt_is E1. exact Hs. }
+  destruct (kb_format kb =? KFT_TECDSAPublicKey) eqn:E2.
+  { cbn [orb]. rewrite pub_ecdsa_needs_slot; [reflexivity|]. fmt_is E2. exact Hs. }
+  cbn [orb].
+  destruct (kb_format kb =? KFT_PKCS1) eqn:E3.
+  { cbn [orb]. rewrite pub_rsa_needs_slot; [reflexivity|]. fmt_is E3. exact Hs. }
+  destruct (kb_format kb =? KFT_TRSAPublicKey) eqn:E4.
+  { cbn [orb]. rewrite pub_rsa_needs_slot; [reflexivity|]. fmt_is E4. exact Hs. }
+  cbn [orb].
+  destruct (kb_format kb =? KFT_X509) eqn:E5; [|reflexivity].
+  rewrite get_bytes_missing; [reflexivity|]. fmt_is E5. exact Hs.
+Qed.
+
+Lemma priv_rsa_needs_slot : slot_missing APrivRSA kb m -> priv_rsa C kb = Err.
+Proof.
+  unfold slot_missing, accessor_slot, priv_rsa. intros Hs.
+  destruct (kb_format kb =? KFT_PKCS1). { cbn in Hs. rewrite get_bytes_missing; [reflexivity|exact Hs]. }
+  destruct (kb_format kb =? KFT_PKCS8). { cbn in Hs. rewrite get_bytes_missing; [reflexivity|exact Hs]. }
+  destruct (kb_format kb =? KFT_TRSAPrivateKey); [|reflexivity].
+  rewrite Hm. cbn. cbn in Hs. destruct (km_rsa_priv m); [discriminate|reflexivity].
+Qed.
+
+Lemma priv_ecdsa_needs_slot : slot_missing APrivECDSA kb m -> priv_ecdsa C kb = Err.
+Proof.
+  unfold slot_missing, accessor_slot, priv_ecdsa. intros Hs.
+  destruct (kb_format kb =? KFT_ECPrivateKey). { cbn in Hs. rewrite get_bytes_missing; [reflexivity|exact Hs]. }
+  destruct (kb_format kb =? KFT_PKCS8). { cbn in Hs. rewrite get_bytes_missing; [reflexivity|exact Hs]. }
+  destruct (kb_format kb =? KFT_TECDSAPrivateKey) eqn:E1.
+  { cbn [orb]. rewrite Hm. cbn [bind].
+    destruct (kb_format kb =? KFT_TECPrivateKey) eqn:E2.
+    { apply Z.eqb_eq in E1, E2. rewrite E1 in E2. discriminate. }
+    cbn in Hs. destruct (km_ecdsa_priv m); [discriminate|reflexivity]. }
+  cbn [orb]. destruct (kb_format kb =? KFT_TECPrivateKey); [|reflexivity].
+  rewrite Hm. cbn [bind]. cbn in Hs. destruct (km_ec_priv m); [discriminate|reflexivity].
+Qed.
+
+Lemma priv_crypto_needs_slot : slot_missing APrivCrypto kb m -> priv_crypto C kb = Err.
+Proof.
+  intros Hs. unfold priv_crypto.
+  destruct (kb_format kb =? KFT_ECPrivateKey) eqn:E0.
+  { cbn [orb]. rewrite priv_ecdsa_needs_slot; [reflexivity|]. fmt_is E0. exact Hs. }
+  destruct (kb_format kb =? KFT_TECPrivateKey) eqn:E1.
+  { cbn [orb]. rewrite priv_ecdsa_needs_slot; [reflexivity|]. fmt_is E1. exact Hs. }
+  destruct (kb_format kb =? KFT_TECDSAPrivateKey) eqn:E2.
+  { cbn [orb]. rewrite priv_ecdsa_needs_slot; [reflexivity|]. fmt_is E2. exact Hs. }
+  cbn [orb].
+  destruct (kb_format kb =? KFT_PKCS1) eqn:E3.
+  { cbn [orb]. rewrite priv_rsa_needs_slot; [reflexivity|]. fmt_is E3. exact Hs. }
+  destruct (kb_format kb =? KFT_TRSAPrivateKey) eqn:E4.
+  { cbn [orb]. rewrite priv_rsa_needs_slot; [reflexivity|]. fmt_is E4. exact Hs. }
+  cbn [orb].
+  destruct (kb_format kb =? KFT_PKCS8) eqn:E5; [|reflexivity].
+  rewrite get_bytes_missing; [reflexivity|]. fmt_is E5. exact Hs.
+Qed.
+
+End NeedsSlot.
+
+Theorem accessor_needs_its_slot : forall C a o kb m,
+  object_key_block o = Some kb ->
+  get_material kb = Ok m ->
+  slot_missing a kb m ->
+  run_obj_acc C a o = Err.
+Proof.
+  intros C a o kb m Hkb Hm Hs.
+  destruct a, o; cbn [run_obj_acc]; try reflexivity; cbn in Hkb; try discriminate; injection Hkb as ->.
+  - rewrite (secret_data_needs_slot _ _ Hm Hs); reflexivity.
+  - rewrite (symmetric_needs_slot _ _ Hm Hs); reflexivity.
+  - rewrite (pub_rsa_needs_slot C _ _ Hm Hs); reflexivity.
+  - rewrite (pub_ecdsa_needs_slot C _ _ Hm Hs); reflexivity.
+  - rewrite (pub_crypto_needs_slot C _ _ Hm Hs); reflexivity.
+  - unfold pub_pem. rewrite (pub_crypto_needs_slot C _ _ Hm Hs); reflexivity.
+  - rewrite (priv_rsa_needs_slot C _ _ Hm Hs); reflexivity.
+  - rewrite (priv_ecdsa_needs_slot C _ _ Hm Hs); reflexivity.
+  - rewrite (priv_crypto_needs_slot C _ _ Hm Hs); reflexivity.
+  - unfold priv_pem. rewrite (priv_crypto_needs_slot C _ _ Hm Hs); reflexivity.
+Qed.
